@@ -414,10 +414,63 @@ def run_tlaps(ctx, name, module):
     log("[%s] %s: all %s proof obligations discharged by tlapm" % (ctx.prop, name, m.group(1)))
 
 
+def perturbed_table(ctx, rng, ranges=False):
+    """C02 / C11 quantify over 'whatever family table the tree ships' and 'any future hand edit': the pair checks again on a
+    PERTURBED table - a scratch copy of the tree whose range table additionally covers natural families it does not cover
+    today (well-formed by construction: natural version order, one version per step)."""
+    import re
+    t = ctx.tables
+    covered = {x for f in t["ranges"] for st in f for x in st}
+    def vkey(x):
+        cs = x.split("-")
+        v = next(c for c in cs if re.match(r"^\d+(\.\d+)*[a-z]?$", c))
+        m = re.match(r"^([\d.]+)([a-z]?)$", v)
+        return [int(p) for p in m.group(1).split(".")], m.group(2)
+    fams = []
+    for key, ids in sorted(natural_families(ctx).items()):
+        ids = sorted(set(ids))
+        if any(x in covered or x.endswith("-only") or x.endswith("-or-later") for x in ids):
+            continue
+        if len({tuple(vkey(x)[0]) + (vkey(x)[1],) for x in ids}) != len(ids):
+            continue
+        fams.append(sorted(ids, key=vkey))
+    if not fams:
+        return
+    pick = rng.sample(fams, min(len(fams), 14))
+    g = os.path.join(ctx.scratch, "perturbed-table")
+    shutil.copytree(ctx.repo, g, ignore=shutil.ignore_patterns(".git"))
+    path = os.path.join(g, "spdxexp", "spdxlicenses", "license_ranges.go")
+    with open(path) as fh:
+        src = fh.read()
+    lit = "".join("\t\t{\n" + "".join('\t\t\t{\n\t\t\t\t"%s",\n\t\t\t},\n' % x for x in fam) + "\t\t},\n" for fam in pick)
+    tail = "\t}\n}\n"
+    if not src.endswith(tail):
+        raise Infra("license_ranges.go does not end as expected; cannot build the perturbed table")
+    with open(path, "w") as fh:
+        fh.write(src[: -len(tail)] + lit + tail)
+    sub = Ctx(ctx.prop, ctx.tier, ctx.seed, repo=g)
+    sub.build()
+    sub.export()
+    if ranges:
+        sub.run_tlc("ranges-perturbed", "MC_Ranges", "MC_Ranges", workers=4, timeout=1200)
+    run_pairs(sub, "pairs-perturbed", rng, quick=True, with_cross=False)
+    for m in sub.mismatches:
+        m["source"] = "perturbed table (+%d natural families, e.g. %s): %s" % (len(pick), pick[0], m.get("source"))
+    ctx.mismatches.extend(sub.mismatches)
+    ctx.states += sub.states
+    ctx.transitions += sub.transitions
+    ctx.replayed += sub.replayed
+    ctx.nontrivial += sub.nontrivial
+    ctx.stages.extend(sub.stages)
+    ctx.notes.append("perturbed table: added %s" % pick)
+    shutil.rmtree(g, True)
+
+
 def c02(ctx):
     rng = random.Random(ctx.seed)
     run_tlaps(ctx, "matchsym-proof", "MatchSym")
     r = run_pairs(ctx, "pairs", rng, quick=ctx.tier != "thorough")
+    perturbed_table(ctx, rng)
     ctx.drive("trace", "single", 1500 if ctx.tier == "thorough" else 400)
     ctx.validate_trace("trace")
     viol = sorted(set(__import__("re").findall(r"Invariant (\w+) is violated", r["log"])))
@@ -438,6 +491,7 @@ def c11(ctx):
     ctx.run_tlc("ranges", "MC_Ranges", "MC_Ranges", workers=4, timeout=1200)
     nf = len(ctx.tables["ranges"])
     r = run_pairs(ctx, "pairs", rng, quick=ctx.tier != "thorough")
+    perturbed_table(ctx, rng, ranges=True)
     ctx.drive("trace", "single", 1200 if ctx.tier == "thorough" else 300)
     ctx.validate_trace("trace")
     sessions(ctx)
